@@ -3067,3 +3067,108 @@ func errName(o types.Object) string {
 	}
 	return o.Name()
 }
+
+// ---------------------------------------------------------------------------------------------
+// SLOT-BY-SEARCH (C03/C07): an in-place replacement `x.neigh[k] = v` / `x.br[k] = e` names a slot of
+// x by position. The position of a given neighbour is only known by searching for it (NodeIndex,
+// EdgeIndex, a loop index over the same slices); a constant k assumes an order of the neighbours
+// ("the parent is first") that holds for freshly parsed trees and fails after a re-rooting.
+func (c *Ctx) slotBySearch(rule string, funcs []*FuncInfo, clause string) (n, nviol int) {
+	neighF, brF, _, _ := c.nodeEdgeFields()
+	if neighF == nil || brF == nil {
+		return
+	}
+	for _, fi := range funcs {
+		if fi.Decl.Body == nil {
+			continue
+		}
+		info := fi.Pkg.TypesInfo
+		ast.Inspect(fi.Decl.Body, func(m ast.Node) bool {
+			as, ok := m.(*ast.AssignStmt)
+			if !ok || as.Tok != token.ASSIGN {
+				return true
+			}
+			for _, l := range as.Lhs {
+				ie, ok := unparen(l).(*ast.IndexExpr)
+				if !ok {
+					continue
+				}
+				var fld *types.Var
+				switch x := unparen(ie.X).(type) {
+				case *ast.SelectorExpr:
+					fld, _ = info.Uses[x.Sel].(*types.Var)
+				case *ast.CallExpr:
+					if g := calleeOf(info, x); g != nil {
+						c.indexAccessors()
+						fld = c.getters[g]
+					}
+				}
+				if fld != neighF && fld != brF {
+					continue
+				}
+				n++
+				if tv, ok := info.Types[ie.Index]; ok && tv.Value != nil {
+					nviol++
+					c.Violation(rule, fmt.Sprintf("%s/%s", funcName(fi.Obj), c.canon(info, l, nil)), as.Pos(), fmt.Sprintf("%s is replaced at the constant position %s: which neighbour sits there depends on the order of the node's neighbours (after a re-rooting the parent is not the first one), so another neighbour than the intended one is overwritten", c.src(l), tv.Value.String())).Clause = clause
+				}
+			}
+			return true
+		})
+	}
+	c.Trivial(rule, "scan", token.NoPos, fmt.Sprintf("%d in-place stores into neigh/br examined, none at a constant position", n-nviol))
+	return
+}
+
+// ---------------------------------------------------------------------------------------------
+// FULL-LOOP: a designated loop does work for EVERY element of what it ranges over (it also handles
+// the elements that come after any given one): it is a range loop or a counting loop whose
+// condition only bounds the counter, and no unlabeled `break` leaves it. An early exit "once
+// everything has been found" silently skips the later elements.
+func (c *Ctx) fullLoop(rule, key string, fi *FuncInfo, inLoop func(info *types.Info, call *ast.CallExpr) bool, clause, what string) {
+	info := fi.Pkg.TypesInfo
+	var loop ast.Node
+	var body *ast.BlockStmt
+	walkStack(fi.Decl.Body, func(m ast.Node, stack []ast.Node) bool {
+		call, ok := m.(*ast.CallExpr)
+		if !ok || loop != nil || !inLoop(info, call) {
+			return true
+		}
+		for i := len(stack) - 1; i >= 0; i-- {
+			switch l := stack[i].(type) {
+			case *ast.RangeStmt:
+				loop, body = l, l.Body
+			case *ast.ForStmt:
+				loop, body = l, l.Body
+			}
+			if loop != nil {
+				break
+			}
+		}
+		return true
+	})
+	if loop == nil {
+		c.Undecided(rule, key, fi.Decl.Pos(), "the loop that "+what+" was not found")
+		return
+	}
+	if fs, ok := loop.(*ast.ForStmt); ok && !isIndexLoop(info, fs) {
+		c.Violation(rule, key, fs.Pos(), "the loop that "+what+" stops on a condition other than the end of what it ranges over ("+c.src(fs.Cond)+"): the elements after that point are skipped").Clause = clause
+		return
+	}
+	bad := token.NoPos
+	walkStack(body, func(q ast.Node, st []ast.Node) bool {
+		switch x := q.(type) {
+		case *ast.ForStmt, *ast.RangeStmt, *ast.SwitchStmt, *ast.TypeSwitchStmt, *ast.SelectStmt, *ast.FuncLit:
+			return false
+		case *ast.BranchStmt:
+			if x.Tok == token.BREAK && x.Label == nil && !bad.IsValid() {
+				bad = x.Pos()
+			}
+		}
+		return true
+	})
+	if bad.IsValid() {
+		c.Violation(rule, key, bad, "the loop that "+what+" is left with `break`: what it does for the elements after the current one (not only the work the break is about) is skipped").Clause = clause
+	} else {
+		c.OK(rule, key, loop.Pos(), "the loop that "+what+" visits every element")
+	}
+}
